@@ -133,14 +133,14 @@ include hN hwf hlex
 
 /-- the argument loop of a print directive -/
 theorem directiveArgs_safe : ∀ (fuel : Nat) (args : List Expr) (st : FState) (Q : List Expr → FState → Prop),
-    Inv EL S st.p → mu st.p ≤ N → mu st.p + 1 ≤ fuel →
-    (∀ r st', Inv EL S st'.p → mu st'.p ≤ mu st.p → Q r st') →
+    EPl S args → Inv EL S st.p → mu st.p ≤ N → mu st.p + 1 ≤ fuel →
+    (∀ r st', Inv EL S st'.p → (mu st'.p ≤ mu st.p ∧ EPl S r) → Q r st') →
     FSafe AP EL S (directiveArgs pf ef fuel args) st Q := by
   intro fuel
   induction fuel with
-  | zero => intro args st Q _ _ h; omega
+  | zero => intro args st Q _ _ _ h; omega
   | succ f ih =>
-    intro args st Q hi hn hf hq
+    intro args st Q hargs hi hn hf hq
     unfold directiveArgs
     apply FSafe.bind
     apply fnext_safe hz hi
@@ -149,30 +149,30 @@ theorem directiveArgs_safe : ∀ (fuel : Nat) (args : List Expr) (st : FState) (
     · apply FSafe.bind
       apply parseExpr0_safe hz pf ef N hN hwf (upw% hi1) (by omega)
       intro e st2 hi2 hm2
-      apply ih _ st2 Q hi2 (by omega) (by omega)
+      apply ih _ st2 Q (EPl_append hargs (EPl_single hm2.2)) hi2 (by omega) (by omega)
       intro r st' a b
-      exact hq r st' a (by omega)
+      exact hq r st' a ⟨by omega, b.2⟩
     · apply FSafe.bind
       apply fbackup_safe hi1 (by have := hi.1; omega)
       intro st2 hi2 hm2 _
-      exact FSafe.pure (hq _ st2 hi2 (by rw [ht1] at hm2; omega))
+      exact FSafe.pure (hq _ st2 hi2 ⟨by rw [ht1] at hm2; omega, hargs⟩)
 
 theorem printLoop_safe (pos : Nat) (expr : Expr) : ∀ (fuel : Nat) (dirs : List Directive) (st : FState)
     (Q : Node → FState → Prop),
-    Inv EL S st.p → mu st.p ≤ N → mu st.p + 1 ≤ fuel →
-    (∀ r st', childOK r → Inv EL S st'.p → mu st'.p ≤ mu st.p → Q r st') →
+    (PosOK S pos ∧ EP S expr ∧ DirsP S dirs) → Inv EL S st.p → mu st.p ≤ N → mu st.p + 1 ≤ fuel →
+    (∀ r st', (childOK r ∧ NP S r) → Inv EL S st'.p → mu st'.p ≤ mu st.p → Q r st') →
     FSafe AP EL S (printLoop pf ef pos expr fuel dirs) st Q := by
   intro fuel
   induction fuel with
-  | zero => intro dirs st Q _ _ h; omega
+  | zero => intro dirs st Q _ _ _ h; omega
   | succ f ih =>
-    intro dirs st Q hi hn hf hq
+    intro dirs st Q hpre hi hn hf hq
     unfold printLoop
     apply FSafe.bind
     apply fnext_safe hz hi
     intro tok st1 hi1 hs1 hpc1 ht1 hm1 _
     split
-    · exact FSafe.pure (hq _ st1 trivial (upw% hi1) (by omega))
+    · exact FSafe.pure (hq _ st1 ⟨trivial, by simp only [NP]; exact hpre⟩ (upw% hi1) (by omega))
     split
     · rename_i hc
       have hr := real_of_beq hc (by decide)
@@ -180,22 +180,23 @@ theorem printLoop_safe (pos : Nat) (expr : Expr) : ∀ (fuel : Nat) (dirs : List
       apply fexpect_safe hz (upw% hi1) (by decide)
       intro id st2 hi2 _ _ _ hm2 _
       apply FSafe.bind
-      apply directiveArgs_safe hz pf ef N hN hwf hlex f [] st2 _ hi2 (by omega) (by omega)
+      apply directiveArgs_safe hz pf ef N hN hwf hlex f [] st2 _ EPl_nil hi2 (by omega) (by omega)
       intro args st3 hi3 hm3
-      apply ih _ st3 Q hi3 (by omega) (by omega)
+      apply ih _ st3 Q ⟨hpre.1, hpre.2.1, DirsP_append hpre.2.2 (by
+        intro d hd; simp only [List.mem_singleton] at hd; subst hd; exact ⟨posOK_of hs1, hm3.2⟩)⟩ hi3 (by omega) (by omega)
       intro r st' c a b
       exact hq r st' c a (by omega)
     · exact funexpected_safe hi1 hs1
 
 theorem parsePrint_safe (fuel : Nat) (token : Item) (st : FState) (Q : Node → FState → Prop)
-    (hi : Inv EL S st.p) (hn : mu st.p ≤ N) (hf : mu st.p + 1 ≤ fuel)
-    (hq : ∀ r st', childOK r → Inv EL S st'.p → mu st'.p ≤ mu st.p → Q r st') :
+    (hi : Inv EL S st.p ∧ S token) (hn : mu st.p ≤ N) (hf : mu st.p + 1 ≤ fuel)
+    (hq : ∀ r st', (childOK r ∧ NP S r) → Inv EL S st'.p → mu st'.p ≤ mu st.p → Q r st') :
     FSafe AP EL S (parsePrint pf ef fuel token) st Q := by
   unfold parsePrint
   apply FSafe.bind
-  apply parseExpr0_safe hz pf ef N hN hwf hi hn
+  apply parseExpr0_safe hz pf ef N hN hwf hi.1 hn
   intro e st1 hi1 hm1
-  apply printLoop_safe hz pf ef N hN hwf hlex _ _ fuel [] st1 Q hi1 (by omega) (by omega)
+  apply printLoop_safe hz pf ef N hN hwf hlex _ _ fuel [] st1 Q ⟨posOK_of hi.2, hm1.2, DirsP_nil⟩ hi1 (by omega) (by omega)
   intro r st' c a b
   exact hq r st' c a (by omega)
 
@@ -243,14 +244,14 @@ theorem parseAlias_safe (fuel : Nat) (st : FState) (Q : Unit → FState → Prop
 omit hN hwf hlex in
 theorem soyDocLoop_safe (pos : Nat) : ∀ (fuel : Nat) (params : List SoyDocParam) (st : FState)
     (Q : Node → FState → Prop),
-    Inv EL S st.p → mu st.p + 1 ≤ fuel →
-    (∀ r st', childOK r → Inv EL S st'.p → mu st'.p ≤ mu st.p → Q r st') →
+    PosOK S pos → Inv EL S st.p → mu st.p + 1 ≤ fuel →
+    (∀ r st', (childOK r ∧ NP S r) → Inv EL S st'.p → mu st'.p ≤ mu st.p → Q r st') →
     FSafe AP EL S (soyDocLoop pos fuel params) st Q := by
   intro fuel
   induction fuel with
-  | zero => intro params st Q _ h; omega
+  | zero => intro params st Q _ _ h; omega
   | succ f ih =>
-    intro params st Q hi hf hq
+    intro params st Q hpos hi hf hq
     unfold soyDocLoop
     apply FSafe.bind
     apply fnext_safe hz hi
@@ -258,7 +259,7 @@ theorem soyDocLoop_safe (pos : Nat) : ∀ (fuel : Nat) (params : List SoyDocPara
     split
     · rename_i hc
       have hr := real_of_beq hc (by decide)
-      apply ih _ st1 Q (upw% hi1) (by omega)
+      apply ih _ st1 Q hpos (upw% hi1) (by omega)
       intro r st' c a b
       exact hq r st' c a (by omega)
     split
@@ -266,11 +267,11 @@ theorem soyDocLoop_safe (pos : Nat) : ∀ (fuel : Nat) (params : List SoyDocPara
       apply fexpect_safe hz (upw% hi1) (by decide)
       intro ident st2 hi2 _ _ _ hm2 hty
       have hr := real_of_eq hty (by decide)
-      apply ih _ st2 Q hi2 (by omega)
+      apply ih _ st2 Q hpos hi2 (by omega)
       intro r st' c a b
       exact hq r st' c a (by omega)
     split
-    · exact FSafe.pure (hq _ st1 trivial (upw% hi1) (by omega))
+    · exact FSafe.pure (hq _ st1 ⟨trivial, by simp only [NP]; exact hpos⟩ (upw% hi1) (by omega))
     · exact funexpected_safe hi1 hs1
 
 omit hN hwf hlex in
@@ -305,14 +306,14 @@ theorem boolAttr_safe (attrs : List (Bytes × Bytes)) (key : Bytes) (d : Bool) (
 
 omit hN hwf hlex in
 theorem namespaceLoop_safe (pos : Nat) : ∀ (fuel : Nat) (name : Bytes) (st : FState) (Q : Node → FState → Prop),
-    Inv EL S st.p → mu st.p + 2 ≤ fuel →
-    (∀ r st', childOK r → Inv EL S st'.p → mu st'.p ≤ mu st.p → Q r st') →
+    PosOK S pos → Inv EL S st.p → mu st.p + 2 ≤ fuel →
+    (∀ r st', (childOK r ∧ NP S r) → Inv EL S st'.p → mu st'.p ≤ mu st.p → Q r st') →
     FSafe AP EL S (namespaceLoop pos fuel name) st Q := by
   intro fuel
   induction fuel with
-  | zero => intro name st Q _ h; omega
+  | zero => intro name st Q _ _ h; omega
   | succ f ih =>
-    intro name st Q hi hf hq
+    intro name st Q hpos hi hf hq
     unfold namespaceLoop
     apply FSafe.bind
     apply fnext_safe hz hi
@@ -320,7 +321,7 @@ theorem namespaceLoop_safe (pos : Nat) : ∀ (fuel : Nat) (name : Bytes) (st : F
     split
     · rename_i hc
       have hr := real_of_beq hc (by decide)
-      apply ih _ st1 Q (upw% hi1) (by omega)
+      apply ih _ st1 Q hpos (upw% hi1) (by omega)
       intro r st' c a b
       exact hq r st' c a (by omega)
     · apply FSafe.bind
@@ -338,12 +339,12 @@ theorem namespaceLoop_safe (pos : Nat) : ∀ (fuel : Nat) (name : Bytes) (st : F
       intro rd st4 hi4 _ _ _ hm4 _
       apply FSafe.bind
       apply fmodify_safe
-      exact FSafe.pure (hq _ _ trivial hi4 (by show mu st4.p ≤ mu st.p; omega))
+      exact FSafe.pure (hq _ _ ⟨trivial, by simp only [NP]; exact hpos⟩ hi4 (by show mu st4.p ≤ mu st.p; omega))
 
 omit hN hwf hlex in
 theorem parseNamespace_safe (fuel : Nat) (token : Item) (st : FState) (Q : Node → FState → Prop)
-    (hi : Inv EL S st.p) (hf : mu st.p + 1 ≤ fuel)
-    (hq : ∀ r st', childOK r → Inv EL S st'.p → mu st'.p ≤ mu st.p → Q r st') :
+    (hst : S token) (hi : Inv EL S st.p) (hf : mu st.p + 1 ≤ fuel)
+    (hq : ∀ r st', (childOK r ∧ NP S r) → Inv EL S st'.p → mu st'.p ≤ mu st.p → Q r st') :
     FSafe AP EL S (parseNamespace fuel token) st Q := by
   unfold parseNamespace
   apply FSafe.bind
@@ -354,13 +355,13 @@ theorem parseNamespace_safe (fuel : Nat) (token : Item) (st : FState) (Q : Node 
     apply fexpect_safe hz hi (by decide)
     intro name st1 hi1 _ _ _ hm1 hty
     have hr := real_of_eq hty (by decide)
-    apply namespaceLoop_safe hz _ fuel _ st1 Q hi1 (by omega)
+    apply namespaceLoop_safe hz _ fuel _ st1 Q (posOK_of hst) hi1 (by omega)
     intro r st' c a b
     exact hq r st' c a (by omega)
 
 theorem parseHeaderParam_safe (token : Item) (st : FState) (Q : Node → FState → Prop)
-    (hi : Inv EL S st.p) (hn : mu st.p ≤ N)
-    (hq : ∀ r st', childOK r → Inv EL S st'.p → mu st'.p ≤ mu st.p → Q r st') :
+    (hst : S token) (hi : Inv EL S st.p) (hn : mu st.p ≤ N)
+    (hq : ∀ r st', (childOK r ∧ NP S r) → Inv EL S st'.p → mu st'.p ≤ mu st.p → Q r st') :
     FSafe AP EL S (parseHeaderParam pf ef token) st Q := by
   unfold parseHeaderParam
   simp only
@@ -385,7 +386,7 @@ theorem parseHeaderParam_safe (token : Item) (st : FState) (Q : Node → FState 
     apply FSafe.bind
     apply fexpect_safe hz hi5 (by decide)
     intro rd st6 hi6 _ _ _ hm6 _
-    exact FSafe.pure (hq _ st6 trivial hi6 (by omega))
+    exact FSafe.pure (hq _ st6 ⟨trivial, by simp only [NP, EPo]; exact ⟨posOK_of hst, hm5.2⟩⟩ hi6 (by omega))
   · apply FSafe.bind
     apply fbackup_safe hi4 (by have := hi3.1; omega)
     intro st5 hi5 hm5 _
@@ -394,12 +395,12 @@ theorem parseHeaderParam_safe (token : Item) (st : FState) (Q : Node → FState 
     apply FSafe.bind
     apply fexpect_safe hz hi5 (by decide)
     intro rd st6 hi6 _ _ _ hm6 _
-    exact FSafe.pure (hq _ st6 trivial hi6 (by omega))
+    exact FSafe.pure (hq _ st6 ⟨trivial, by simp only [NP, EPo]; exact ⟨posOK_of hst, trivial⟩⟩ hi6 (by omega))
 
 omit hN hwf in
 theorem parseCss_safe (token : Item) (st : FState) (Q : Node → FState → Prop)
-    (hi : Inv EL S st.p)
-    (hq : ∀ r st', childOK r → Inv EL S st'.p → mu st'.p ≤ mu st.p → Q r st') :
+    (hst : S token) (hi : Inv EL S st.p)
+    (hq : ∀ r st', (childOK r ∧ NP S r) → Inv EL S st'.p → mu st'.p ≤ mu st.p → Q r st') :
     FSafe AP EL S (parseCss pf token) st Q := by
   unfold parseCss
   apply FSafe.bind
@@ -409,11 +410,11 @@ theorem parseCss_safe (token : Item) (st : FState) (Q : Node → FState → Prop
   apply fexpect_safe hz hi1 (by decide)
   intro rd st2 hi2 _ _ _ hm2 _
   split
-  · exact FSafe.pure (hq _ st2 trivial hi2 (by omega))
+  · exact FSafe.pure (hq _ st2 ⟨trivial, by simp only [NP, EPo]; exact ⟨posOK_of hst, trivial⟩⟩ hi2 (by omega))
   · apply FSafe.bind
     apply parseQuotedExpr_safe hz pf hlex hi2
     intro e hpe
-    exact FSafe.pure (hq _ st2 trivial hi2 (by omega))
+    exact FSafe.pure (hq _ st2 ⟨trivial, by simp only [NP, EPo]; exact ⟨posOK_of hst, hpe⟩⟩ hi2 (by omega))
 
 omit hN hwf hlex in
 theorem callNameLoop_safe : ∀ (fuel : Nat) (name : Bytes) (st : FState) (Q : Bytes → FState → Prop),
@@ -444,7 +445,7 @@ theorem callNameLoop_safe : ∀ (fuel : Nat) (name : Bytes) (st : FState) (Q : B
 omit hN hwf in
 theorem parseCallHead_safe (fuel : Nat) (st : FState) (Q : Bytes × Bool × Option Expr → FState → Prop)
     (hi : Inv EL S st.p) (hf : mu st.p + 1 ≤ fuel)
-    (hq : ∀ r st', Inv EL S st'.p → mu st'.p ≤ mu st.p → Q r st') :
+    (hq : ∀ r st', Inv EL S st'.p → (mu st'.p ≤ mu st.p ∧ EPo S r.2.2) → Q r st') :
     FSafe AP EL S (parseCallHead pf fuel) st Q := by
   unfold parseCallHead
   apply FSafe.bind
@@ -498,20 +499,20 @@ theorem parseCallHead_safe (fuel : Nat) (st : FState) (Q : Bytes × Bool × Opti
         subst h4
         split
         · split
-          · exact FSafe.pure (hq _ _ hi3 (by omega))
+          · exact FSafe.pure (hq _ _ hi3 ⟨by omega, trivial⟩)
           · apply FSafe.bind
             apply parseQuotedExpr_safe hz pf hlex hi3
             intro e hpe
-            exact FSafe.pure (hq _ _ hi3 (by omega))
-        · exact FSafe.pure (hq _ _ hi3 (by omega))
+            exact FSafe.pure (hq _ _ hi3 ⟨by omega, hpe⟩)
+        · exact FSafe.pure (hq _ _ hi3 ⟨by omega, trivial⟩)
 
 omit hN hz hwf hlex in
 /-- the plural cases of parsePlural: the state is not touched; the cases and the default
     built from well-shaped switch cases are well shaped -/
 theorem pluralCases_safe : ∀ (n : Nat) (cs acc : NodeList) (d : Option Node) (st : FState)
-    (Q : NodeList × Option Node → FState → Prop), cs.length = n → casesOK cs → pcasesOK acc →
-    (∀ d0, d = some d0 → listOK d0) → Inv EL S st.p →
-    (∀ r, pcasesOK r.1 → (∀ d0, r.2 = some d0 → listOK d0) → Q r st) →
+    (Q : NodeList × Option Node → FState → Prop), cs.length = n → (casesOK cs ∧ NPL S cs) → (pcasesOK acc ∧ NPL S acc) →
+    (∀ d0, d = some d0 → listOK d0 ∧ NP S d0) → Inv EL S st.p →
+    (∀ r, (pcasesOK r.1 ∧ NPL S r.1) → (∀ d0, r.2 = some d0 → listOK d0 ∧ NP S d0) → Q r st) →
     FSafe AP EL S (pluralCases cs acc d) st Q := by
   intro n
   induction n with
@@ -521,22 +522,30 @@ theorem pluralCases_safe : ∀ (n : Nat) (cs acc : NodeList) (d : Option Node) (
     | nil => unfold pluralCases; exact FSafe.pure (hq _ hacc hd)
     | cons c r => simp [NodeList.length] at hl
   | succ k ih =>
-    intro cs acc d st Q hl hsc hacc hd hi hq
+    intro cs acc d st Q hl hsc0 hacc hd hi hq
     cases cs with
     | nil => unfold pluralCases; exact FSafe.pure (hq _ hacc hd)
     | cons c rest =>
       have hl' : rest.length = k := by simp only [NodeList.length] at hl; omega
+      obtain ⟨hsc, hnp⟩ := hsc0
       unfold casesOK at hsc
+      simp only [NPL] at hnp
       unfold pluralCases
       split
       · rename_i pos values body
         have hb : listOK body := hsc.1
+        have hnb := hnp.1
+        simp only [NP] at hnb
         split
-        · exact ih _ _ _ st Q hl' hsc.2 hacc (fun d0 h => by simp only [Option.some.injEq] at h; subst h; exact hb) hi hq
+        · exact ih _ _ _ st Q hl' ⟨hsc.2, hnp.2⟩ hacc
+            (fun d0 h => by simp only [Option.some.injEq] at h; subst h; exact ⟨hb, hnb.2.2⟩) hi hq
         · split
-          · refine ih _ _ _ st Q hl' hsc.2 ?_ hd hi hq
-            apply pcasesOK_append _ _ _ rfl hacc
-            exact ⟨hb, trivial⟩
+          · refine ih _ _ _ st Q hl' ⟨hsc.2, hnp.2⟩ ⟨?_, ?_⟩ hd hi hq
+            · apply pcasesOK_append _ _ _ rfl hacc.1
+              exact ⟨hb, trivial⟩
+            · apply NPL_append _ _ hacc.2
+              simp only [NPL, NP]
+              exact ⟨⟨hnb.1, hnb.2.2⟩, trivial⟩
           · exact ferrorf_safe hi
       · rename_i hnot
         exfalso
